@@ -60,7 +60,9 @@ def discover_packets():
     return out
 
 
-def build(vacuity=False, only=None):
+def build(vacuity=False, only=None, interface=False):
+    """interface=True: same text, but every extracted function is emitted as external_body with its U1 contract
+    (used by the units that *call* the codec; the contracts are proved here, in U1)."""
     vxlib.reset_vac()
     C = vxlib.load_contracts(os.path.join(HERE, "contracts.toml"))
     fnc = {k: vxlib.FnContract(k, v) for k, v in C.get("fn", {}).items()}
@@ -127,14 +129,14 @@ def build(vacuity=False, only=None):
         u.raw(f"pub mod enum_impl_{e} {{\n    use super::*;\n")
         u.modules.append(f"enum_impl_{e}")
         u.raw(f"impl From<{e}> for VarInt {{\n")
-        u.add_fn(fi, fc, vacuity=vacuity, indent="    ")
+        u.add_fn(fi, fc, mode=("external" if interface else "verify"), vacuity=vacuity, indent="    ")
         u.raw("}\n")
         ti = ex[f"enum.{e}.try_from"]
         tname = re.search(r"fn try_from\((\w+):", ti["sig"]).group(1)
         tc = vxlib.FnContract(f"enum.{e}.try_from", {"props": ["C09"], "ensures": [
             {"id": f"C09.enum.{e}.try_from_table", "props": ["C09"], "text": f"r == {off}({tname})"}]})
         u.raw(f"impl TryFrom<VarInt> for {e} {{\n    type Error = Error;\n")
-        u.add_fn(ti, tc, vacuity=vacuity, indent="    ")
+        u.add_fn(ti, tc, mode=("external" if interface else "verify"), vacuity=vacuity, indent="    ")
         u.raw("}\n}\n")
     u.raw("} // verus!\n")
     u.raw(read_text("enums.rs"))
@@ -147,7 +149,7 @@ def build(vacuity=False, only=None):
     for f in READER_FNS:
         key = f"reader.{f}"
         ex[key]["vis"] = "pub"  # trait methods are public; emitted here as inherent methods of the model reader
-        u.add_fn(ex[key], fnc[key], vacuity=vacuity, indent="        ")
+        u.add_fn(ex[key], fnc[key], mode=("external" if interface else "verify"), vacuity=vacuity, indent="        ")
     u.raw("    }\n}\n")
 
     # writer: trait declaration carries the contracts, the impl for Vec<u8> carries the real bodies
@@ -159,7 +161,7 @@ def build(vacuity=False, only=None):
     u.raw("pub mod writer {\n    use super::*;\n    use super::fastnbt::SerOpts;\n    use super::serde_json::Value;\n    impl AsyncWritePacket for Vec<u8> {\n")
     for f in WRITER_FNS:
         key = f"writer.{f}"
-        u.add_fn(ex[key], fnc[key], mode="body", vacuity=vacuity, indent="        ")
+        u.add_fn(ex[key], fnc[key], mode=("body_external" if interface else "body"), vacuity=vacuity, indent="        ")
     u.raw("    }\n}\n")
 
     # packets, in their real module structure
@@ -196,6 +198,7 @@ def build(vacuity=False, only=None):
                       f"        open spec fn in_limits(&self) -> bool {{ {limits} }}\n"
                       f"        open spec fn same(&self, o: &Self) -> bool {{ {same_expr(st['fields'])} }}\n"
                       f"        open spec fn proto_id() -> int {{ {pc['id']} }}\n"
+                      f"        open spec fn view_sent(&self) -> Sent {{ {pc.get('view', 'Sent::Other { id: Self::proto_id(), body: self.enc_then(Seq::empty()) }')} }}\n"
                       f"    }}\n")
                 cid = f"C09.{pk}.id"
                 u.add_clause(vxlib.Clause(cid, "ensures", "id", ["C09"], f"{pk}.ID"))
@@ -208,10 +211,10 @@ def build(vacuity=False, only=None):
                 wc = vxlib.FnContract(f"{pk}.write_to_buffer", {"props": ["C04", "C09"], "proof": hint})
                 rc = vxlib.FnContract(f"{pk}.read_from_buffer", {"props": ["C04", "C09"]})
                 u.raw(f"    impl WritePacket for {ty} {{\n")
-                u.add_fn(ex[f"{pk}.write_to_buffer"], wc, mode="body", vacuity=vacuity, indent="        ")
+                u.add_fn(ex[f"{pk}.write_to_buffer"], wc, mode=("body_external" if interface else "body"), vacuity=vacuity, indent="        ")
                 u.raw("    }\n")
                 u.raw(f"    impl ReadPacket for {ty} {{\n")
-                rmode = "body"
+                rmode = "body_external" if interface else "body"
                 if pc.get("read") == "unsupported":
                     rmode = "body_external"
                     u.trusted_notes.append(f"{pk}.read_from_buffer NOT under contract (left as external_body): {pc.get('read_note', '')}")
@@ -220,5 +223,9 @@ def build(vacuity=False, only=None):
             for m in modpath:
                 u.raw("    }\n")
         u.raw("}\n")
+    if interface:
+        u.raw("} // verus!\n")
+        u.modules = []
+        return u
     u.raw("} // verus!\nfn main() {}\n")
     return u
